@@ -27,9 +27,16 @@ def events(src, n):
     phases = [(1, ca.cfg_add_new_start_variable), (2, ca.cfg_remove_epsilon_rules), (3, ca.cfg_eliminate_unit_rules),
               (4, ca.cfg_make_rules_of_length_two), (5, ca.cfg_eliminate_terminals)]
     G = G0
+    from gambatools import _verif
     for k, fn in phases:
         pre = ab.cfg(G)
+        _verif.take()
         R, exc = guarded(lambda: fn(G), 20)
+        tr = _verif.take()
+        if k == 3 and exc == "none" and _verif.ON:
+            # (T) the observed order of `for A in V`, replayed through Chomsky.tla's step function
+            yield {"op": "unit_trace", "pre": pre, "res": ab.cfg(R),
+                   "order": [ab.enc(t["A"]) for t in tr if t["ev"] == "unit.var"], "src": dict(src, n=n)}
         ev = {"op": "chomsky_phase", "phase": k, "pre": pre, "post": ab.cfg(G), "exc": exc, "n": n,
               "src": dict(src, n=n)}
         if exc == "none":
@@ -89,6 +96,8 @@ RULE = ("grammars as in C07 (+ the same hand-written grammars with 24-26 declare
 
 
 def nontrivial(e):
+    if e["op"] == "unit_trace":
+        return len(e["order"]) >= 2
     return e.get("res") != e["pre"]
 
 
